@@ -255,6 +255,56 @@ def parser(run, m, F, E):
     return n
 
 
+def parser_prefix(run, m, F, E):
+    """R10.1 on the first iterations of the specifier parser, interpreted exactly (no abstraction of the loop): a read that leaves
+    the text only after a particular character has been consumed (e.g. a pad character that is the terminating NUL) shows up here
+    with a witness over the text alone."""
+    f = None
+    for name in F.lib:
+        if m.func(name).dem == 'ST::format_writer::parse_format()':
+            f = m.func(name)
+    if f is None:
+        return 0
+    lay = m.structs.get('struct.ST::format_spec')
+
+    class XH(ParserHooks):
+        unroll = 1              # two iterations exactly
+        widen_on_entry = False
+        stop_at_widen = True
+        max_paths = 8000
+        max_steps = 300000
+    I = Interp(m, F, E, XH(m))
+    st = text_state()
+    so = Obj('ext', Lin.const(lay['size'] if lay else 28))
+    so.lazy = True
+    st.objs['SPECOUT'] = so
+    # precondition of parse_format (established by next_format, R10.3): the cursor is on a '{'
+    a0 = ('load', 'FMT', Lin.atom('c0'), 0, 8)
+    st.rng[a0] = (0x7B, 0x7B)
+    st.assume_ge0(Lin.atom('L') - Lin.atom('c0') - 1)
+    bounds_v, und = [], []
+    try:
+        outs = I.run(I.start(f, [PtrV('SPECOUT'), PtrV('W')], st))
+    except Budget as e:
+        outs = []
+        und.append('exact prefix not explored: %s' % e)
+    for o in outs:
+        for e in o.st.events:
+            if e[0] in ('oob', 'oob?') and isinstance(e[3], PtrV) and e[3].obj == 'FMT':
+                env = e[6] if len(e) > 6 else None
+                if e[0] == 'oob' or env is not None:
+                    if not bounds_v:
+                        bounds_v.append('%s of %r byte(s) at text offset %r lies beyond the terminating NUL (text length L) at %s%s' % (
+                            e[2], e[4], e[3].off, loc(m, e[1]), '; witness ' + ', '.join('%s=%s' % (k if isinstance(k, str) else 'unit@%r' % (k[2],), v) for k, v in sorted(env.items(), key=repr)[:8]) if env else ''))
+                else:
+                    und.append('read at text offset %r not decided on the exact prefix' % (e[3].off,))
+            elif e[0] in ('strto-unterminated?',):
+                bounds_v.append('%s at %s' % (e[0], loc(m, e[1])))
+    run.ob('R10.1', short(f.dem), False if bounds_v else (None if und else True), bounds_v[0] if bounds_v else (und[0] if und else
+           'every read of the first two specifier characters and what follows them is at an offset <= L (%d exact paths)' % len(outs)), disc='exact prefix', loc=fn_loc(f))
+    return 1
+
+
 def throw_sets(run, m, F):
     n = 0
     for name in F.lib:
@@ -427,6 +477,7 @@ def check(run):
               'end >= start, > start when the first unit is a decimal digit)')
     run.assume('user-defined format_type overloads and iostream internals are outside the analysis',
                'format_spec objects hold valid enumerators (only parse_format writes them)')
+    parser_prefix(run, m, F, E)
     run.floor('apply_format instantiations interpreted', parser(run, m, F, E), 3)
     run.floor('format entry points', throw_sets(run, m, F), 20)
     run.floor('assertion messages reachable from format entries', assert_inventory(run, m, F), 8)
